@@ -292,6 +292,76 @@ class ExecGen:
             body.append(ir.st_return(self.any_expr(scope)))
         return ir.st_function(name, args, body, last)
 
+    # -- structured source (lowered by the REAL parser; RefVM then runs the lowered model) ------
+    def structured(self, scope, depth, size, in_loop, indent=''):
+        r = self.rng
+        out = []
+        rx = ir.render_expr
+        for _ in range(size):
+            if self.budget <= 0:
+                break
+            self.budget -= 1
+            c = r.random()
+            if c < 0.25:
+                out.append(indent + rx(self.tick()['expr']['expr']))
+            elif c < 0.40:
+                out.append(f"{indent}{r.choice(scope['nums'])} = {rx(self.num_expr(scope))}")
+            elif c < 0.52 and self.funcs:
+                e = self.call_expr(scope)
+                if r.random() < 0.5:
+                    out.append(f"{indent}{r.choice(scope['nums'])} = {rx(e)}")
+                else:
+                    out.append(indent + rx(e))
+            elif c < 0.64 and depth < self.k['max_depth']:
+                out.append(f"{indent}if {rx(self.cond_expr(scope))}:")
+                out.extend(self.structured(scope, depth + 1, r.randint(1, 3), in_loop, indent + '    '))
+                for _i in range(r.choice([0, 0, 1])):
+                    out.append(f"{indent}elif {rx(self.cond_expr(scope))}:")
+                    out.extend(self.structured(scope, depth + 1, r.randint(1, 2), in_loop, indent + '    '))
+                if r.random() < 0.4:
+                    out.append(f"{indent}else:")
+                    out.extend(self.structured(scope, depth + 1, r.randint(1, 2), in_loop, indent + '    '))
+                out.append(f"{indent}endif")
+            elif c < 0.76 and depth < self.k['max_depth']:
+                out.append(f"{indent}while {rx(self.site('loop'))}:")
+                out.append(indent + '    ' + rx(self.tick()['expr']['expr']))
+                out.extend(self.structured(scope, depth + 1, r.randint(0, 3), True, indent + '    '))
+                out.append(f"{indent}endwhile")
+            elif c < 0.88 and depth < self.k['max_depth']:
+                items = ', '.join(rx(self.num_expr(scope, 1)) for _i in range(r.randint(0, 4)))
+                idx = ', ix' if r.random() < 0.4 else ''
+                out.append(f"{indent}for fv{idx} in arrayNew({items}):")
+                out.append(indent + '    ' + rx(call('hostTick', s('for'), var('fv'))))
+                out.extend(self.structured(scope, depth + 1, r.randint(0, 3), True, indent + '    '))
+                out.append(f"{indent}endfor")
+            elif in_loop and c < 0.94:
+                out.append(indent + r.choice(['break', 'continue']))
+            else:
+                self.used_hosts.add('hostObserve')
+                self.n_obs += 1
+                out.append(indent + rx(call('hostObserve', s(f'o{self.n_obs}'), self.any_expr(scope))))
+        return out
+
+    def structured_plan(self):
+        r = self.rng
+        self.budget = self.k['max_top'] * 3
+        self.funcs = [f'fn{c}' for c in 'AB'[:r.randint(0, 2)]]
+        self.order = list(self.funcs)
+        scope = {'nums': ['n0', 'n1', 'n2'], 'gens': ['g0', 'g1'], 'labels': ['G0'], 'includes': []}
+        lines = []
+        for ix, name in enumerate(self.funcs):
+            fscope = {'nums': ['m0', 'a0', 'n0'], 'gens': ['h0', 'h1'], 'labels': ['R0'], 'fn_index': ix, 'includes': None}
+            lines.append(f'function {name}(a0, a1):')
+            lines.extend(self.structured(fscope, 1, r.randint(1, 4), False, '    '))
+            if r.random() < 0.7:
+                lines.append('    return ' + ir.render_expr(self.num_expr(fscope)))
+            lines.append('endfunction')
+        lines.extend(self.structured(scope, 0, r.randint(2, self.k['max_top']), False))
+        plan = {'debug': False, 'has_log': True, 'has_fetch': True, 'source': '\n'.join(lines) + '\n', 'model': [],
+                'globals': {'rows0': [{'ra': 1, 'rb': 2}], 'rows1': [], 'vars0': {'vx': 1}}, 'answers': self.answers,
+                'exprs': self.exprs, 'files': {}, 'faults': [], 'fetch_faults': []}
+        return plan
+
     # -- VFS ---------------------------------------------------------------------------------
     def make_data(self, location):
         """Data files for systemFetch probes, named relative to `location`."""
